@@ -33,6 +33,7 @@ struct Cfg {
     bool reps = true;
     bool simple_polys_only = false;  // only simple polygons (required for OASIS and for fracturing)
     bool long_strings = false;
+    uint64_t vertex_limit = 0;    // the vertex limit the library will be saved with, where the plan knows it (sizes some shapes around it)
     bool neg_explicit = true;     // negative ExplicitX/Y coordinates
     bool force_ongrid = false;    // integer grid coordinates only
     bool compact = false;         // small files only: no many-cell libraries, no large lattice counts (exhaustive sweeps)
@@ -561,6 +562,51 @@ inline model::MPoly polygon(Ctx& c, bool allow_big) {
                 dg_t w = ongrid(c, 30, 200), h = ongrid(c, 30, 200), t = ongrid(c, 2, 10);
                 std::vector<Pt> outer = {o, Pt{o.x + w, o.y}, Pt{o.x + w, o.y + h}, Pt{o.x, o.y + h}};
                 std::vector<Pt> inner;
+                if (r.chance(0.35)) {
+                    // an island inside the hole, all in one boundary: outer contour, seam to the hole, seam from the
+                    // hole to the island and back, rest of the hole.  Under a vertex limit the cuts are taken at
+                    // quantiles of the vertex coordinates along the longer side: with some hundreds of extra vertices
+                    // along the bottom edge a limit of 199 cuts once or twice, mostly away from the hole, and one
+                    // piece keeps all three levels
+                    bool many = r.chance(0.6);
+                    int64_t lim = c.cfg.vertex_limit >= 100 && c.cfg.vertex_limit <= 1000 ? (int64_t)c.cfg.vertex_limit : 199;
+                    w = many ? ongrid(c, 2 * lim + 60, 2 * lim + 500) : ongrid(c, 80, 300);
+                    h = ongrid(c, 30, 70);
+                    dg_t u = ongrid(c, 1, 5);
+                    dg_t hx = 10 * r.range(1, w / 10 - 3 * u / 10 - 1), hy = 10 * r.range(1, h / 10 - 3 * u / 10 - 1);
+                    // the contour starts on the left side at the height of the hole: the seam runs along a grid line
+                    Pt sp{o.x, o.y + hy};
+                    outer = {sp, o};
+                    int extra = many ? (int)r.range(lim - 10, 2 * lim + 20) : (int)r.range(0, 40);
+                    std::set<dg_t> xs;
+                    for (int k = 0; k < extra; k++) xs.insert(10 * r.range(1, w / 10 - 1));
+                    for (dg_t x : xs) outer.push_back(Pt{o.x + x, o.y});
+                    outer.push_back(Pt{o.x + w, o.y});
+                    outer.push_back(Pt{o.x + w, o.y + h});
+                    outer.push_back(Pt{o.x, o.y + h});
+                    o = sp;
+                    Pt h0{sp.x + hx, sp.y};
+                    // (both seams run along grid lines: every edge is axis-parallel and the region comparison is exact)
+                    Pt i0{h0.x + u, h0.y + u};
+                    Pt m0{h0.x, h0.y + u};  // on the left edge of the hole, where the seam to the island leaves it
+                    p.pts = outer;
+                    p.pts.push_back(o);
+                    p.pts.push_back(h0);
+                    p.pts.push_back(m0);
+                    p.pts.push_back(i0);
+                    p.pts.push_back(Pt{i0.x + u, i0.y});
+                    p.pts.push_back(Pt{i0.x + u, i0.y + u});
+                    p.pts.push_back(Pt{i0.x, i0.y + u});
+                    p.pts.push_back(i0);
+                    p.pts.push_back(m0);
+                    p.pts.push_back(Pt{h0.x, h0.y + 3 * u});
+                    p.pts.push_back(Pt{h0.x + 3 * u, h0.y + 3 * u});
+                    p.pts.push_back(Pt{h0.x + 3 * u, h0.y});
+                    p.pts.push_back(h0);
+                    p.rep = repetition(c, false);
+                    p.props = props(c, true);
+                    return p;
+                }
                 if (r.chance(0.5)) {
                     // plain variant: small hole next to the first corner
                     if (r.chance(0.3)) outer.erase(outer.begin() + 2);                          // triangle
@@ -742,7 +788,10 @@ inline model::MPath path(Ctx& c) {
         }
         return p;
     }
-    if (c.cfg.robust_paths && manhattan && r.chance(0.4)) {
+    // (not in layouts beyond 2^31 grid steps: RobustPath's numerical solver runs out of digits there and its outline
+    // comes out with NaN vertices, which crash the convex hull behind a bounding box - finding F32, recorded with a
+    // replay of its own and kept out of the generator so that nothing else can hide behind it)
+    if (c.cfg.robust_paths && manhattan && c.span <= ((dg_t)1 << 31) && r.chance(0.4)) {
         // the writer samples a RobustPath's centre line at interior points: only on axis-parallel
         // segments do those samples stay exactly on the line after rounding
         p.impl = 1;
